@@ -2,6 +2,7 @@
 from __future__ import annotations
 
 import ast
+import re
 
 from ..core import AnalysisError, norm_stmt_text, unparse
 from ..report import Finding, Result
@@ -170,14 +171,34 @@ def grouper_rules(repo, res):
     expect_stmt(res, 'SPEC', f, 'xypos = ' + nf_text('np.transpose((x, y))'), 'positions clustered as (x, y) rows')
     expect_stmt(res, 'SPEC', f, 'group_id = ' + nf_text("fclusterdata(xypos, t=self.min_separation, criterion='distance')"),
                 'single-linkage clusters at the minimum separation')
+    # first-appearance renumbering, in either of its two spellings:
+    #   mapping = defaultdict(lambda: len(mapping) + 1); np.array([mapping[g] for g in group_id])
+    #   mapping = {}; for g in group_id: (if g not in mapping: mapping[g] = len(mapping) + 1); out.append(mapping[g])
     inl = Inliner(f.node)
     rets = [nf(e) for e, _ in inl.returns]
-    ok = nf_text('np.array([mapping[group] for group in group_id])') in rets
-    res.oblige('SPEC', 'group ids renumbered by first appearance only', ok, nontrivial=True)
+    form_a = nf_text('np.array([mapping[group] for group in group_id])') in rets and any(
+        isinstance(s_, ast.Assign) and SP.nf_stmt(s_) == 'mapping = ' + nf_text('defaultdict(lambda: len(mapping) + 1)') for s_ in ast.walk(f.node))
+    form_b = False
+    for lp in [n for n in ast.walk(f.node) if isinstance(n, ast.For)]:
+        if nf(lp.iter) != 'group_id' or not isinstance(lp.target, ast.Name):
+            continue
+        g_ = lp.target.id
+        ifs = [b for b in lp.body if isinstance(b, ast.If)]
+        apps = [b for b in lp.body if isinstance(b, ast.Expr) and isinstance(b.value, ast.Call) and unparse(b.value.func, 0).endswith('.append')]
+        if len(ifs) == 1 and len(apps) == 1 and len(lp.body) == 2 and not ifs[0].orelse and len(ifs[0].body) == 1:
+            t_ = nf(ifs[0].test)
+            st_ = ifs[0].body[0]
+            m_ = re.match(r'not\(in\(%s,(\w+)\)\)' % g_, t_)
+            if m_ and isinstance(st_, ast.Assign) and SP.nf_stmt(st_) == f'{m_.group(1)}[{g_}] = ' + nf_text(f'len({m_.group(1)}) + 1') \
+                    and nf(apps[0].value.args[0]) == f'{m_.group(1)}[{g_}]' \
+                    and nf_text(f'np.array({unparse(apps[0].value.func.value, 0)})') in rets:
+                form_b = True
+    ok = form_a or form_b
+    res.oblige('SPEC', 'group ids renumbered 1..G by first appearance only', ok, nontrivial=True)
     if not ok:
         res.add(Finding('SPEC', f.fullname, 'first-appearance renumbering', f.loc,
-                        'SourceGrouper must return the fclusterdata ids renumbered by first appearance and nothing else', {}))
-    expect_stmt(res, 'SPEC', f, 'mapping = ' + nf_text('defaultdict(lambda: len(mapping) + 1)'), 'first-appearance counter starts at 1')
+                        'SourceGrouper must return the fclusterdata ids renumbered 1..G by first appearance and nothing else '
+                        '(counter starts at 1, every id looked up in the same mapping)', {}))
 
 
 def fit_data_rules(repo, res):
